@@ -7,7 +7,6 @@ import NodisVerif.Proofs.C04Spec
 import NodisVerif.Proofs.C04Rem
 import NodisVerif.Proofs.C04ScoreSpec
 import NodisVerif.Proofs.C04Rank
-import NodisVerif.Proofs.C04Shadow
 /-
   C04 — sorted sets stay ordered by (score, member); rank, range and score agree.
 
@@ -21,16 +20,15 @@ import NodisVerif.Proofs.C04Shadow
     * `ZSet.WF z` — the invariant of Model/WF.lean (section 1 shows it is an invariant);
     * `F64.isNaN s = false` on a score that is *written* (a NaN score breaks the order: the Go code
       accepts it, Redis rejects it at parse time);
-    * `ZeroSafe z m s` on ZADD / ZADD XX / ZINCRBY — see the finding `zadd_wf_finding`; the
-      unconditional form is `run_shadowed` / `run_chain_sorted` (only the sign bit of a zero score
-      can ever differ between dictionary and index);
     * `z.dict.length < 2 ^ 63` where the code computes `int(stop - start)`.
 
-  Findings (every witness below was also replayed on the Go code): signed zero (`zadd_wf_finding`),
-  NaN scores/bounds (`zadd_nan_finding`, `zrangebyscore_nan_finding`), 1-based rank windows with
-  panics and a phantom header element (`zrange_finding`, `zrevrange_finding`,
-  `zrange_last_k_panic_finding`), LIMIT counted before exclusive bounds are filtered and offset
-  overshoot (`zrangebyscore_*_finding`).
+  After the repairs of the Go code (ZADD with an IEEE-equal score is a no-op; ZRANGEBYSCORE applies
+  offset/limit to the members that satisfy the bounds) the signed-zero region and the LIMIT regions
+  are gone: sections 1, 6, 7 hold in full.  Remaining findings (each witness was replayed on the Go
+  code): NaN scores and NaN bounds of ZREMRANGEBYSCORE (`zadd_nan_finding`,
+  `zremrangebyscore_nan_finding`), and the 1-based rank windows of ZRANGE / ZREVRANGE with panics
+  and a phantom header element (`zrange_finding`, `zrevrange_finding`,
+  `zrange_last_k_panic_finding`) — pinned by the repository's own tests.
 -/
 namespace NodisVerif.C04
 open NodisVerif
@@ -41,64 +39,14 @@ open NodisVerif.Proofs.C04
 
 theorem wf_empty : DsZSet.empty.WF := inv_empty.toWF
 
-/-
-  FULL STATEMENT (false on the signed-zero region, see `zadd_wf_finding`):
-    ∀ z m s, z.WF → F64.isNaN s = false → (zAdd z m s).1.WF
-  FINDING REGION (decidable): the member exists with score `old`, `F64.eq s old` (IEEE equal) but
-  `s ≠ old` as bit patterns — by `zeroSafe_region_exact` this is exactly: {s, old} = {+0.0, −0.0}.
-  There `zAdd` stores the new bit pattern in the dictionary and leaves the old one in the skiplist
-  (`if score != element.Score` is false), so ZSCORE and ZRANGE WITHSCORES disagree on the sign of zero.
--/
-theorem zadd_wf_partial (z : ZSet) (h : z.WF) (m : Bytes) (s : F64) (hs : F64.isNaN s = false)
-    (hz : ZeroSafe z m s) : (zAdd z m s).1.WF :=
-  (inv_zAdd (Inv.ofWF h) m s hs hz).toWF
+/-- ZADD keeps the invariant for every member and every non-NaN score (any insertion order, ties,
+    updates, signed zeros) -/
+theorem zadd_wf (z : ZSet) (h : z.WF) (m : Bytes) (s : F64) (hs : F64.isNaN s = false) :
+    (zAdd z m s).1.WF := (inv_zAdd (Inv.ofWF h) m s hs).toWF
 
-/-- the region is exactly "overwrite a zero with the zero of the other sign" -/
-theorem zeroSafe_region_exact (z : ZSet) (m : Bytes) (s : F64) (hs : F64.isNaN s = false) :
-    ¬ ZeroSafe z m s ↔
-      (AList.get? z.dict m = some 0 ∧ s = F64.negZero) ∨ (AList.get? z.dict m = some F64.negZero ∧ s = 0) := by
-  unfold ZeroSafe
-  constructor
-  · intro hn
-    rw [Classical.not_forall] at hn
-    obtain ⟨old, hn⟩ := hn
-    rw [Classical.not_imp] at hn
-    obtain ⟨hget, hn⟩ := hn
-    rw [Classical.not_imp] at hn
-    obtain ⟨heq, hne⟩ := hn
-    rcases F64.eq_bits s old heq with h | ⟨h1, h2⟩ | ⟨h1, h2⟩
-    · exact absurd h hne
-    · right; rw [hget, h1, h2]; exact ⟨rfl, rfl⟩
-    · left; rw [hget, h1, h2]; exact ⟨rfl, rfl⟩
-  · rintro (⟨hget, rfl⟩ | ⟨hget, rfl⟩) hall
-    · exact absurd (hall 0 hget (by decide)) (by decide)
-    · exact absurd (hall F64.negZero hget (by decide)) (by decide)
+theorem zaddXX_wf (z : ZSet) (h : z.WF) (m : Bytes) (s : F64) (hs : F64.isNaN s = false) :
+    (zAddXX z m s).1.WF := (inv_zAddXX (Inv.ofWF h) m s hs).toWF
 
-/-- witness: ZADD k −0.0 a over a = +0.0 leaves (+0.0, a) in the index while the dictionary says −0.0 -/
-theorem zadd_wf_finding :
-    let z : ZSet := (zAdd DsZSet.empty [97] 0).1
-    z.WF ∧ F64.isNaN F64.negZero = false ∧ ¬ ZeroSafe z [97] F64.negZero ∧
-    ¬ (zAdd z [97] F64.negZero).1.WF ∧
-    zScore (zAdd z [97] F64.negZero).1 [97] = some F64.negZero ∧
-    (zAdd z [97] F64.negZero).1.sl = [(0, [97])] := by
-  refine ⟨(inv_zAdd inv_empty [97] 0 (by decide) (by intro old h; simp [DsZSet.empty, AList.get?] at h)).toWF,
-    by decide, ?_, ?_, by decide, by decide⟩
-  · intro h
-    exact absurd (h 0 (by decide) (by decide)) (by decide)
-  · intro h
-    have := h.agree [97] 0 (by decide)
-    revert this
-    decide
-
-theorem zaddXX_wf_partial (z : ZSet) (h : z.WF) (m : Bytes) (s : F64) (hs : F64.isNaN s = false)
-    (hz : ZeroSafe z m s) : (zAddXX z m s).1.WF :=
-  (inv_zAddXX (Inv.ofWF h) m s hs hz).toWF
-
-theorem zincrby_wf_partial (z : ZSet) (h : z.WF) (m : Bytes) (newScore : F64)
-    (hs : F64.isNaN newScore = false) (hz : ZeroSafe z m newScore) : (zIncrByWith z m newScore).WF :=
-  (inv_zAdd (Inv.ofWF h) m newScore hs hz).toWF
-
-/-- NX never overwrites, LT / GT only write a strictly smaller / larger score: no region -/
 theorem zaddNX_wf (z : ZSet) (h : z.WF) (m : Bytes) (s : F64) (hs : F64.isNaN s = false) :
     (zAddNX z m s).1.WF := (inv_zAddNX (Inv.ofWF h) m s hs).toWF
 
@@ -107,6 +55,10 @@ theorem zaddLT_wf (z : ZSet) (h : z.WF) (m : Bytes) (s : F64) (hs : F64.isNaN s 
 
 theorem zaddGT_wf (z : ZSet) (h : z.WF) (m : Bytes) (s : F64) (hs : F64.isNaN s = false) :
     (zAddGT z m s).1.WF := (inv_zAddGT (Inv.ofWF h) m s hs).toWF
+
+theorem zincrby_wf (z : ZSet) (h : z.WF) (m : Bytes) (newScore : F64)
+    (hs : F64.isNaN newScore = false) : (zIncrByWith z m newScore).WF :=
+  (inv_zAdd (Inv.ofWF h) m newScore hs).toWF
 
 theorem zrem_wf (z : ZSet) (h : z.WF) (ms : List Bytes) : (zRem z ms).1.WF :=
   (inv_zRem (Inv.ofWF h) ms).toWF
@@ -117,7 +69,8 @@ theorem zremRangeByScore_wf (z : ZSet) (h : z.WF) (min max : F64) (mode : Nat) :
 theorem zremRangeByRank_wf (z : ZSet) (h : z.WF) (start stop : Int) :
     (zRemRangeByRank z start stop).1.WF := (inv_zRemRangeByRank (Inv.ofWF h) start stop).toWF
 
-/-- a NaN score does break the invariant (why `isNaN s = false` is a hypothesis everywhere above) -/
+/-- a NaN score does break the invariant (why `isNaN s = false` is a hypothesis everywhere above;
+    NaN cannot arrive over RESP any more, the data-structure function still accepts it) -/
 theorem zadd_nan_finding :
     F64.isNaN 0x7FF8000000000000 = true ∧ ¬ (zAdd DsZSet.empty [97] 0x7FF8000000000000).1.WF := by
   refine ⟨by decide, ?_⟩
@@ -126,94 +79,48 @@ theorem zadd_nan_finding :
   revert this
   decide
 
-/-- any sequence of operations, each admissible in the state in which it runs -/
-theorem wf_run_partial (z : ZSet) (h : z.WF) (ops : List Op) (hok : RunOk z ops) : (run z ops).WF :=
+/-- after ZADD of +0.0 and then −0.0 for the same member nothing disagrees any more: the stored
+    score stays +0.0 in the dictionary and in the index (this input was the former signed-zero
+    finding) -/
+theorem zadd_signed_zero_consistent :
+    let z : ZSet := (zAdd (zAdd DsZSet.empty [97] 0).1 [97] F64.negZero).1
+    z.WF ∧ zScore z [97] = some 0 ∧ z.sl = [(0, [97])] :=
+  ⟨zadd_wf _ (zadd_wf _ wf_empty [97] 0 (by decide)) [97] F64.negZero (by decide), by decide, by decide⟩
+
+/-- any sequence of operations whose written scores are not NaN — for every member, any insertion
+    order, duplicate scores, score updates, removals, signed zeros -/
+theorem wf_run (z : ZSet) (h : z.WF) (ops : List Op) (hok : ∀ op ∈ ops, op.NoNaN) : (run z ops).WF :=
   (inv_run ops z (Inv.ofWF h) hok).toWF
 
-/-- any sequence of operations whose written scores are neither NaN nor −0.0, from a set without
-    −0.0 scores (in particular from the empty set): state-independent form -/
-theorem wf_run_plain (z : ZSet) (h : z.WF) (hn : NoNegZero z) (ops : List Op)
-    (hp : ∀ op ∈ ops, op.Plain) : (run z ops).WF ∧ NoNegZero (run z ops) :=
-  let r := inv_run_plain ops z (Inv.ofWF h) hn hp
-  ⟨r.1.toWF, r.2⟩
-
-theorem wf_run_from_empty (ops : List Op) (hp : ∀ op ∈ ops, op.Plain) : (run DsZSet.empty ops).WF :=
-  (wf_run_plain DsZSet.empty wf_empty (by intro p hp; simp [DsZSet.empty] at hp) ops hp).1
-
-/-- UNCONDITIONAL form (only NaN excluded; signed zeros allowed): after any sequence of operations
-    from a well-formed set, the state is shadowed by a well-formed set `w` with the *same index
-    chain*, the same members in the dictionary and IEEE-equal scores (`Sim`); by `F64.eq_bits` two
-    IEEE-equal scores are the same bit pattern or the two zeros — so the sign bit of a zero score
-    in the dictionary is the only thing that can ever disagree with the index. -/
-theorem run_shadowed (z : ZSet) (h : z.WF) (ops : List Op) (hn : ∀ op ∈ ops, op.NoNaN) :
-    ∃ w, w.WF ∧ Sim (run z ops) w := by
-  have hi := Inv.ofWF h
-  obtain ⟨w, hw, hs⟩ := sim_run ops z z ⟨rfl, DictSim.refl_of z.dict hi.noNaN⟩ hi hn
-  exact ⟨w, hw.toWF, hs⟩
-
-/-- consequently the chain is always strictly sorted, as long as the dictionary, and the index
-    reflects the dictionary up to the sign of zero — unconditionally (no `ZeroSafe`) -/
-theorem run_chain_sorted (z : ZSet) (h : z.WF) (ops : List Op) (hn : ∀ op ∈ ops, op.NoNaN) :
-    chainSorted (run z ops).sl ∧ (run z ops).sl.length = (run z ops).dict.length ∧
-    ∀ s m, (s, m) ∈ (run z ops).sl →
-      ∃ s', zScore (run z ops) m = some s' ∧ F64.eq s' s = true := by
-  obtain ⟨w, hw, hs⟩ := run_shadowed z h ops hn
-  refine ⟨by rw [hs.1]; exact hw.chainSorted, by rw [hs.1, hs.2.length_eq]; exact hw.sameLen, ?_⟩
-  intro s m hm
-  rw [hs.1] at hm
-  have hget := hw.agree m s hm
-  rcases hs.2.get? m with ⟨_, h2⟩ | ⟨s0, s1, h1, h2, he⟩
-  · rw [h2] at hget; cases hget
-  · rw [h2] at hget
-    cases hget
-    exact ⟨s0, h1, he⟩
-
-/-- a shadowed state answers every ordered query exactly like its well-formed shadow (to which
-    sections 2–7 apply); only ZSCORE can differ, and only in the sign of a zero -/
-theorem shadow_same_answers (z w : ZSet) (hs : Sim z w) :
-    (∀ start stop desc, forEachByRank z start stop desc = forEachByRank w start stop desc) ∧
-    (∀ min max offset limit desc mode,
-      rangeByScore z min max offset limit desc mode = rangeByScore w min max offset limit desc mode) ∧
-    (∀ min max mode, zCount z min max mode = zCount w min max mode) ∧
-    (∀ m, zRank z m = zRank w m) ∧ (∀ m, zRevRank z m = zRevRank w m) ∧
-    zCard z = zCard w ∧
-    (∀ m, (zScore z m = none ∧ zScore w m = none) ∨
-      ∃ s s', zScore z m = some s ∧ zScore w m = some s' ∧ F64.eq s s' = true) :=
-  sim_queries hs
+theorem wf_run_from_empty (ops : List Op) (hok : ∀ op ∈ ops, op.NoNaN) : (run DsZSet.empty ops).WF :=
+  wf_run DsZSet.empty wf_empty ops hok
 
 /-- ZUNIONSTORE / ZINTERSTORE: `Api.zstore` builds the destination as
-    `items.foldl (fun z it => (zAdd z it.2 it.1).1) DsZSet.empty` from items with pairwise distinct
-    members (they come out of a member-keyed map): the result is well formed for every non-NaN
-    aggregate (signed zeros included — nothing is overwritten), and its chain is the items sorted -/
-theorem zstore_result_wf (items : List Item) (hn : ∀ it ∈ items, F64.isNaN it.1 = false)
-    (hd : (items.map (·.2)).Nodup) :
+    `items.foldl (fun z it => (zAdd z it.2 it.1).1) DsZSet.empty`; the result is well formed for
+    every non-NaN aggregate -/
+theorem zstore_result_wf (items : List Item) (hn : ∀ it ∈ items, F64.isNaN it.1 = false) :
     (items.foldl (fun z it => (zAdd z it.2 it.1).1) DsZSet.empty).WF :=
-  (inv_buildFrom items DsZSet.empty inv_empty hn (by intro it _; rfl) hd).toWF
-
-example : ∀ op ∈ [Op.add [97] 0, .add [97] F64.negZero, .incrBy [97] 0, .rem [[98]]], op.NoNaN := by
-  intro op hop
-  simp only [List.mem_cons, List.not_mem_nil, or_false] at hop
-  rcases hop with rfl | rfl | rfl | rfl <;> simp [Op.NoNaN, Op.score?] <;> decide
+  (inv_buildFrom items DsZSet.empty inv_empty hn).toWF
 
 /-- non-vacuity: a set built by the model's own operations, with a tie (two members at score 1.0),
-    a score update, a negative-zero score and a removal; it is well formed, its chain is as expected -/
-def demo : ZSet :=
-  run DsZSet.empty
-    [.add [98] 0x3FF0000000000000, .add [97] 0x3FF0000000000000, .add [99] F64.negZero,
-     .add [100] 0x4000000000000000, .incrBy [100] 0xBFF0000000000000, .add [101] 0, .rem [[101]]]
+    a score update, a negative-zero score, an overwrite of a zero by the other zero and a removal;
+    it is well formed, its chain is as expected -/
+def demoOps : List Op :=
+  [.add [98] 0x3FF0000000000000, .add [97] 0x3FF0000000000000, .add [99] F64.negZero,
+   .add [100] 0x4000000000000000, .incrBy [100] 0xBFF0000000000000, .add [99] 0, .add [101] 0,
+   .rem [[101]]]
 
-example : demo.WF ∧ demo.sl = [(0xBFF0000000000000, [100]), (F64.negZero, [99]),
-    (0x3FF0000000000000, [97]), (0x3FF0000000000000, [98])] := by
-  refine ⟨?_, by decide⟩
-  apply wf_run_partial _ wf_empty
-  simp only [RunOk, Op.Ok, Op.apply, ZeroSafe]
-  decide
+def demo : ZSet := run DsZSet.empty demoOps
 
-example : ∀ op ∈ [Op.add [98] 0x3FF0000000000000, .addNX [97] 0x3FF0000000000000,
-    .remRangeByRank 0 (-1)], op.Plain := by
-  intro op hop
-  simp only [List.mem_cons, List.not_mem_nil, or_false] at hop
-  rcases hop with rfl | rfl | rfl <;> simp [Op.Plain, Op.score?] <;> decide
+example : (∀ op ∈ demoOps, op.NoNaN) ∧ demo.WF ∧
+    demo.sl = [(0xBFF0000000000000, [100]), (F64.negZero, [99]),
+      (0x3FF0000000000000, [97]), (0x3FF0000000000000, [98])] := by
+  have hok : ∀ op ∈ demoOps, op.NoNaN := by
+    intro op hop
+    simp only [demoOps, List.mem_cons, List.not_mem_nil, or_false] at hop
+    rcases hop with rfl | rfl | rfl | rfl | rfl | rfl | rfl | rfl <;>
+      simp [Op.NoNaN, Op.score?] <;> decide
+  exact ⟨hok, wf_run_from_empty _ hok, by decide⟩
 
 /-! ## 2. The index never disagrees with the dictionary -/
 
@@ -228,17 +135,26 @@ theorem sorted_dict_is_chain (z : ZSet) (hd : AList.Sorted z.dict)
 
 /-! ## 3. One score per member, the last one assigned; ZCARD; ZSCORE -/
 
-/-- holds for every set and every score, well formed or not -/
-theorem last_score_wins (z : ZSet) (m : Bytes) (s : F64) :
-    zScore (zAdd z m s).1 m = some s ∧ ∀ m', m' ≠ m → zScore (zAdd z m s).1 m' = zScore z m' := by
-  have hd : (zAdd z m s).1.dict = AList.set z.dict m s := by
-    unfold zAdd
-    cases AList.get? z.dict m with
-    | none => rfl
-    | some old => simp only; split <;> rfl
-  unfold zScore
-  rw [hd]
-  exact ⟨get?_set_self m s z.dict, fun m' hne => get?_set_other m m' s hne z.dict⟩
+/-- after `ZADD m s` (s not NaN; any set, well formed or not) the member's score is IEEE-equal to
+    `s`; it is `s` bit for bit unless the member already held the zero of the other sign (an
+    IEEE-equal score is not an update, as in Redis); every other member keeps its score -/
+theorem last_score_wins (z : ZSet) (m : Bytes) (s : F64) (hs : F64.isNaN s = false) :
+    (∃ s', zScore (zAdd z m s).1 m = some s' ∧ F64.eq s' s = true ∧
+      (s' = s ∨ (zScore z m = some s' ∧ ((s' = 0 ∧ s = F64.negZero) ∨ (s' = F64.negZero ∧ s = 0))))) ∧
+    ∀ m', m' ≠ m → zScore (zAdd z m s).1 m' = zScore z m' :=
+  zAdd_score z m s hs
+
+/-- in particular: a new member, or a score that is not IEEE-equal to the stored one, is stored
+    bit for bit -/
+theorem last_score_wins_exact (z : ZSet) (m : Bytes) (s : F64) (hs : F64.isNaN s = false)
+    (hne : ∀ old, zScore z m = some old → F64.eq s old = false) :
+    zScore (zAdd z m s).1 m = some s := by
+  obtain ⟨⟨s', h1, h2, h3⟩, _⟩ := zAdd_score z m s hs
+  rcases h3 with rfl | ⟨hold, _⟩
+  · exact h1
+  · have := hne s' hold
+    rw [eq_symm s' s h2] at this
+    cases this
 
 theorem zscore_spec (z : ZSet) (m : Bytes) : zScore z m = Spec.ZSet.score z m :=
   (score_eq_get? z m).symm
@@ -304,10 +220,12 @@ theorem zRem_spec (z : ZSet) (h : z.WF) (ms : List Bytes) :
     (zRem z ms).2 = (Spec.ZSet.card z : Int) - Spec.ZSet.card (zRem z ms).1 :=
   zRem_sorted (Inv.ofWF h) ms
 
-/-- ZADD: the member is re-placed according to its new score, everything else is untouched -/
-theorem zAdd_spec_partial (z : ZSet) (h : z.WF) (m : Bytes) (s : F64) (hs : F64.isNaN s = false)
-    (hz : ZeroSafe z m s) : Spec.ZSet.sorted (zAdd z m s).1 = Spec.ZSet.add z m s :=
-  zAdd_sorted (Inv.ofWF h) m s hs hz
+/-- ZADD: the member is (re)placed according to its stored score `s'` (IEEE-equal to the score
+    given, see `last_score_wins`), everything else is untouched -/
+theorem zAdd_spec (z : ZSet) (h : z.WF) (m : Bytes) (s : F64) (hs : F64.isNaN s = false) :
+    ∃ s', zScore (zAdd z m s).1 m = some s' ∧ F64.eq s' s = true ∧
+      Spec.ZSet.sorted (zAdd z m s).1 = Spec.ZSet.add z m s' :=
+  zAdd_sorted (Inv.ofWF h) m s hs
 
 /-! ## 6. Ranges by score
 
@@ -319,76 +237,29 @@ theorem zcount_spec (z : ZSet) (h : z.WF) (hsize : z.dict.length < 2 ^ 63) (min 
     zCount z min max mode = some (Spec.ZSet.count z min max (minOpen mode) (maxOpen mode) : Int) :=
   zCount_spec (Inv.ofWF h) hsize min max mode
 
-/-
-  FULL STATEMENT (false, see the three findings below):
-    ∀ z min max offset count desc mode, z.WF →
-      rangeByScore z min max offset count desc mode =
-        if desc then Spec.revRangeByScoreLimit z min max (minOpen mode) (maxOpen mode) offset count
-        else Spec.rangeByScoreLimit z min max (minOpen mode) (maxOpen mode) offset count
-  FINDING REGIONS (decidable):
-    (a) a bound is NaN  (`zrangebyscore_nan_finding`; Redis rejects NaN bounds at parse time);
-    (b) LIMIT is used (offset > 0 or count > 0), a bound is exclusive and some member's score equals
-        that bound: offset and count are consumed by the excluded members
-        (`zrangebyscore_limit_before_filter_finding`);
-    (c) offset ≥ number of members in the closed range > 0 and the walk has not reached the end of
-        the chain: the node the cursor lands on, outside the range, is returned
-        (`zrangebyscore_offset_overshoot_finding`, `zrevrangebyscore_offset_overshoot_finding`).
-  Outside (a)(b)(c) the statement is `zrangebyscore_spec_partial`; `zrangebyscore_model_closed_form`
-  gives what the model returns on *all* non-NaN inputs.
--/
+/-- ZRANGEBYSCORE / ZREVRANGEBYSCORE, in full: every bound (NaN included: both sides are empty),
+    every mode (open / closed ends), both directions, every offset and every count (offset < 0 or
+    count = 0: empty; count < 0: all) -/
+theorem zrangebyscore_spec (z : ZSet) (h : z.WF) (min max : F64) (offset count : Int) (desc : Bool)
+    (mode : Nat) :
+    rangeByScore z min max offset count desc mode =
+      if desc then Spec.ZSet.revRangeByScoreLimit z min max (minOpen mode) (maxOpen mode) offset count
+      else Spec.ZSet.rangeByScoreLimit z min max (minOpen mode) (maxOpen mode) offset count :=
+  rangeByScore_spec (Inv.ofWF h) min max offset count desc mode
 
-/-- no LIMIT (offset 0, negative count): every mode, both directions, full agreement -/
-theorem zrangebyscore_spec_nolimit (z : ZSet) (h : z.WF) (min max : F64)
-    (hmin : F64.isNaN min = false) (hmax : F64.isNaN max = false) (count : Int) (hc : count < 0)
+/-- the two directions separately, without LIMIT -/
+theorem zrangebyscore_spec_nolimit (z : ZSet) (h : z.WF) (min max : F64) (count : Int) (hc : count < 0)
     (mode : Nat) :
     rangeByScore z min max 0 count false mode
       = Spec.ZSet.rangeByScore z min max (minOpen mode) (maxOpen mode) ∧
     rangeByScore z min max 0 count true mode
-      = Spec.ZSet.revRangeByScore z min max (minOpen mode) (maxOpen mode) :=
-  ⟨rangeByScore_noLimit (Inv.ofWF h) min max hmin hmax count hc false mode,
-   rangeByScore_noLimit (Inv.ofWF h) min max hmin hmax count hc true mode⟩
-
-/-- with LIMIT: agreement outside regions (a)(b)(c) -/
-theorem zrangebyscore_spec_partial (z : ZSet) (h : z.WF) (min max : F64)
-    (hmin : F64.isNaN min = false) (hmax : F64.isNaN max = false) (offset count : Int) (desc : Bool)
-    (mode : Nat)
-    (hb : ∀ a ∈ Spec.ZSet.sorted z, inC min max a = true → keepB min max mode a = true)
-    (hoff : offset.toNat < Spec.ZSet.count z min max false false ∨
-      Spec.ZSet.count z min max false false = 0) :
-    rangeByScore z min max offset count desc mode =
-      if desc then Spec.ZSet.revRangeByScoreLimit z min max (minOpen mode) (maxOpen mode) offset count
-      else Spec.ZSet.rangeByScoreLimit z min max (minOpen mode) (maxOpen mode) offset count :=
-  rangeByScore_limit (Inv.ofWF h) min max hmin hmax offset count desc mode
-    (by rw [sl_eq_sorted (Inv.ofWF h)]; exact hb) hoff
-
-/-- closed bounds are never in region (b) -/
-theorem zrangebyscore_closed_bounds_partial (z : ZSet) (h : z.WF) (min max : F64)
-    (hmin : F64.isNaN min = false) (hmax : F64.isNaN max = false) (offset count : Int) (desc : Bool)
-    (mode : Nat) (h1 : minOpen mode = false) (h2 : maxOpen mode = false)
-    (hoff : offset.toNat < Spec.ZSet.count z min max false false ∨
-      Spec.ZSet.count z min max false false = 0) :
-    rangeByScore z min max offset count desc mode =
-      if desc then Spec.ZSet.revRangeByScoreLimit z min max false false offset count
-      else Spec.ZSet.rangeByScoreLimit z min max false false offset count := by
-  have := zrangebyscore_spec_partial z h min max hmin hmax offset count desc mode
-    (fun a _ _ => closed_keep min max mode h1 h2 a) hoff
-  rw [h1, h2] at this
-  exact this
-
-/-- what the model returns for every non-NaN input: `R` = closed range in walk order, `B` = what
-    the walk meets after it; LIMIT applies to `R` before exclusive bounds are filtered; an offset
-    past `R` yields the one node it lands on -/
-theorem zrangebyscore_model_closed_form (z : ZSet) (h : z.WF) (min max : F64)
-    (hmin : F64.isNaN min = false) (hmax : F64.isNaN max = false) (offset count : Int) (desc : Bool)
-    (mode : Nat) :
-    rangeByScore z min max offset count desc mode =
-      if count = 0 ∨ offset < 0 then [] else
-      let R := if desc then (z.sl.filter (inC min max)).reverse else z.sl.filter (inC min max)
-      let B := if desc then (belowRange z.sl min max).reverse else aboveRange z.sl min max
-      if offset.toNat < R.length then
-        (takeLim count 0 (R.drop offset.toNat)).filter (keepB min max mode)
-      else if R = [] then [] else (B.drop (offset.toNat - R.length)).take 1 :=
-  rangeByScore_closed (Inv.ofWF h) min max hmin hmax offset count desc mode
+      = Spec.ZSet.revRangeByScore z min max (minOpen mode) (maxOpen mode) := by
+  have h1 := zrangebyscore_spec z h min max 0 count false mode
+  have h2 := zrangebyscore_spec z h min max 0 count true mode
+  simp only [Bool.false_eq_true, if_false, if_true, Spec.ZSet.rangeByScoreLimit,
+    Spec.ZSet.revRangeByScoreLimit, Spec.ZSet.limitBy, Int.lt_irrefl, Int.toNat_zero, List.drop_zero,
+    hc] at h1 h2
+  exact ⟨h1, h2⟩
 
 /-- the three members a:1.0 b:2.0 c:3.0 used by the witnesses -/
 def abc : ZSet :=
@@ -397,58 +268,24 @@ def abc : ZSet :=
 theorem abc_wf : abc.WF := wf_run_from_empty _ (by
   intro op hop
   simp only [List.mem_cons, List.not_mem_nil, or_false] at hop
-  rcases hop with rfl | rfl | rfl <;> simp [Op.Plain, Op.score?] <;> decide)
+  rcases hop with rfl | rfl | rfl <;> simp [Op.NoNaN, Op.score?] <;> decide)
 
-/-- non-vacuity of the hypotheses of `zrangebyscore_spec_partial`: [1.0, 3.0] LIMIT 1 1 on `abc`
-    (closed bounds), and (0.0, 3.0] LIMIT 1 1 (exclusive bound that no member sits on) -/
-example : abc.dict.length < 2 ^ 63 ∧
-    (∀ a ∈ Spec.ZSet.sorted abc, inC 0x3FF0000000000000 0x4008000000000000 a = true →
-      keepB 0x3FF0000000000000 0x4008000000000000 0 a = true) ∧
-    (∀ a ∈ Spec.ZSet.sorted abc, inC 0 0x4008000000000000 a = true →
-      keepB 0 0x4008000000000000 1 a = true) ∧
-    ((1 : Int).toNat < Spec.ZSet.count abc 0x3FF0000000000000 0x4008000000000000 false false) ∧
-    Spec.ZSet.rangeByScoreLimit abc 0 0x4008000000000000 true false 1 1 = [(0x4000000000000000, [98])] := by
+/-- the inputs of the former LIMIT findings now agree with Redis:
+    ZRANGEBYSCORE (1 3 LIMIT 0 1 = [b];  ZRANGEBYSCORE 1 2 LIMIT 2 -1 = [];
+    ZREVRANGEBYSCORE 3 2 LIMIT 2 -1 = [];  a NaN lower bound yields nothing -/
+example :
+    rangeByScore abc 0x3FF0000000000000 0x4008000000000000 0 1 false 1 = [(0x4000000000000000, [98])] ∧
+    rangeByScore abc 0x3FF0000000000000 0x4000000000000000 2 (-1) false 0 = [] ∧
+    rangeByScore abc 0x4000000000000000 0x4008000000000000 2 (-1) true 0 = [] ∧
+    rangeByScore abc 0x7FF8000000000000 0x4008000000000000 0 (-1) false 0 = [] := by
   decide
 
-/-- (b) ZRANGEBYSCORE k (1 3 LIMIT 0 1: Redis answers [b]; the model spends the count on the
-    excluded `a` and answers [] -/
-theorem zrangebyscore_limit_before_filter_finding :
-    abc.WF ∧
-    rangeByScore abc 0x3FF0000000000000 0x4008000000000000 0 1 false 1 = [] ∧
-    Spec.ZSet.rangeByScoreLimit abc 0x3FF0000000000000 0x4008000000000000 true false 0 1
-      = [(0x4000000000000000, [98])] ∧ minOpen 1 = true ∧ maxOpen 1 = false := by
-  refine ⟨abc_wf, ?_, by decide, by decide, by decide⟩
-  rw [zrangebyscore_model_closed_form abc abc_wf _ _ (by decide) (by decide)]
-  decide
-
-/-- (c) ZRANGEBYSCORE k 1 2 LIMIT 2 -1: Redis answers []; the model answers [c] (score 3, outside) -/
-theorem zrangebyscore_offset_overshoot_finding :
-    rangeByScore abc 0x3FF0000000000000 0x4000000000000000 2 (-1) false 0 = [(0x4008000000000000, [99])] ∧
-    Spec.ZSet.rangeByScoreLimit abc 0x3FF0000000000000 0x4000000000000000 false false 2 (-1) = [] := by
-  refine ⟨?_, by decide⟩
-  rw [zrangebyscore_model_closed_form abc abc_wf _ _ (by decide) (by decide)]
-  decide
-
-/-- (c) descending: ZREVRANGEBYSCORE k 3 2 LIMIT 2 -1 answers [a] (score 1, outside) -/
-theorem zrevrangebyscore_offset_overshoot_finding :
-    rangeByScore abc 0x4000000000000000 0x4008000000000000 2 (-1) true 0 = [(0x3FF0000000000000, [97])] ∧
-    Spec.ZSet.revRangeByScoreLimit abc 0x4000000000000000 0x4008000000000000 false false 2 (-1) = [] := by
-  refine ⟨?_, by decide⟩
-  rw [zrangebyscore_model_closed_form abc abc_wf _ _ (by decide) (by decide)]
-  decide
-
-/-- (a) a NaN lower bound returns the first member instead of nothing; a NaN upper bound makes
-    ZREMRANGEBYSCORE delete everything from `min` up (the reference deletes nothing) -/
-theorem zrangebyscore_nan_finding :
+/-- ZREMRANGEBYSCORE still mishandles a NaN upper bound: everything from `min` up is deleted (the
+    reference deletes nothing; Redis rejects NaN bounds, and so does the RESP parser now) -/
+theorem zremrangebyscore_nan_finding :
     F64.isNaN 0x7FF8000000000000 = true ∧
-    rangeByScore abc 0x7FF8000000000000 0x4008000000000000 0 (-1) false 0 = [(0x3FF0000000000000, [97])] ∧
-    Spec.ZSet.rangeByScore abc 0x7FF8000000000000 0x4008000000000000 false false = [] ∧
     (zRemRangeByScore abc 0x4000000000000000 0x7FF8000000000000 0).2 = 2 ∧
     (Spec.ZSet.remRangeByScore abc 0x4000000000000000 0x7FF8000000000000 false false).2 = 0 := by
-  refine ⟨by decide, ?_, by decide, by decide, by decide⟩
-  unfold rangeByScore
-  simp only [show ¬ ((-1 : Int) = 0 ∨ (0 : Int) < 0) by decide, if_false, Bool.false_eq_true]
-  rw [skipN_zero]
   decide
 
 /-! ## 5. Ranges by rank
@@ -593,10 +430,9 @@ example : RankRegion 0 (-1) (zCard abc) ∧ RankRegion 0 (-2) (zCard abc) ∧ Ra
   decide
 
 /- UNPROVED (not needed for any theorem above, listed for completeness):
-   * Exactness ("only if") of `RankRegion` / `RevRankRegion` and of the LIMIT conditions of
-     `zrangebyscore_spec_partial`: outside these regions the model is given in closed form
-     (`zrange_model_closed_form`, `zrevrange_model_closed_form`, `zrange_negative_start_closed_form`,
-     `zrangebyscore_model_closed_form`) and disagreement is shown by witnesses, but there is no
+   * Exactness ("only if") of `RankRegion` / `RevRankRegion`: outside these regions the model is
+     given in closed form (`zrange_model_closed_form`, `zrevrange_model_closed_form`,
+     `zrange_negative_start_closed_form`) and disagreement is shown by witnesses, but there is no
      theorem "∀ inputs outside the region, model ≠ reference".
    * ZREVRANGE with a negative `start`: witnesses only (`zrevrange_finding`), no closed form.
    * `start < -2^62` (int64 wrap-around of `stop - start`) is excluded from
